@@ -197,3 +197,10 @@ Definition reads_as (text : string) (expected : list (string * (string * (string
 Definition clean_param (p : string * string) : bool :=
   noeol (fst p) && noeol (snd p) && nocomma (fst p) && nocomma (snd p)
   && String.eqb (strip (fst p)) (fst p) && negb (is_comment (lstrip (fst p))) && negb (is_empty (lstrip (fst p))).
+
+(* the same comparison without the Comment field (never consulted by the simulator) *)
+Definition reads_as_nocomment (text : string) (expected : list (string * (string * (string * (string * string))))) : bool :=
+  list_eqb (fun x y =>
+    String.eqb (fst x) (fst y) && String.eqb (fst (snd x)) (fst (snd y))
+    && String.eqb (fst (snd (snd x))) (fst (snd (snd y)))
+    && String.eqb (snd (snd (snd (snd x)))) (snd (snd (snd (snd y))))) (dump (read_text text)) expected.
